@@ -232,6 +232,27 @@ def pair_case(eg, i, cplx):
     if "kron" in o and r.random() < 0.5:   # diagonal factors exercise the fusion rules
         k1, k2 = r.choice([("Diag", "Diag"), ("Diag", k2), (k1, "Diag")])
     leaf = lambda t: dict(op="leaf", tree=t, arr=False)
+    if o.startswith("flat_"):
+        # both operands already have the kind the combinator flattens (Sum+Sum, Product@Product, Kronecker (x) Kronecker,
+        # KronSum (+) KronSum): the order of the spliced factor lists matters for all but the sum
+        o2 = o[5:]
+        fk = dict(add="Sum", dot="Prod", kron="Kron", kronsum="KronSum")[o2]
+        if (o2 == "kron" and "kron_kronecker_ambiguous" in eg.present) or (o2 == "kronsum" and "kronsum_kronsum_ambiguous" in eg.present):
+            return None
+        for _ in range(30):
+            a = T.rooted(gen, fk, None, None, cplx=cplx, depth=1)
+            if a is None:
+                continue
+            m, n = T.shape(a)
+            b = T.rooted(gen, fk, m if o2 == "add" else (n if o2 == "dot" else None), n if o2 == "add" else None, cplx=cplx, depth=1)
+            if b is None:
+                continue
+            if o2 == "kronsum" and (m != n or T.shape(b)[0] != T.shape(b)[1]):
+                continue
+            if o2 in ("kron", "kronsum") and T.shape(a)[0] * T.shape(b)[0] * T.shape(a)[1] * T.shape(b)[1] > 400:
+                continue
+            return dict(op=o2, x=leaf(a), y=leaf(b)), None
+        return None
     a = T.rooted(gen, k1, None, None, cplx=cplx, depth=1)
     if a is None:
         return None
@@ -282,7 +303,7 @@ def pair_case(eg, i, cplx):
     small = lambda k: T.rooted(gen, k, r.randint(1, 2) if k not in T.SQUARE_ONLY else None, r.randint(1, 2) if k not in T.SQUARE_ONLY else None, cplx=cplx, depth=1)
     if o == "kronsum":
         a2, b2 = T.rooted(gen, k1, None, None, cplx=cplx, depth=1), T.rooted(gen, k2, None, None, cplx=cplx, depth=1)
-        if a2 is None or b2 is None or T.shape(a2)[0] != T.shape(a2)[1] or T.shape(b2)[0] != T.shape(b2)[1] or T.shape(a2)[0] * T.shape(b2)[0] > 12:
+        if a2 is None or b2 is None or T.shape(a2)[0] != T.shape(a2)[1] or T.shape(b2)[0] != T.shape(b2)[1] or T.shape(a2)[0] * T.shape(b2)[0] > 40:
             return None
         if "kronsum_kronsum_ambiguous" in eg.present and k1 == "KronSum" and k2 == "KronSum":
             return None
@@ -416,11 +437,11 @@ def run(ctx):
     gen.concat_equal = "concat_assert_wrong_axis" in c01_present
     gen.sparse_sorted = "sparse_unsorted_cols" in c01_present
     eg = EGen(rnd, gen, present)
-    n = ctx.budget(500, 5000)
+    n = ctx.budget(600, 5000)
     cases, obs = [], []
     tries = 0
     ops_u = ["mul", "neg", "div", "add", "sub", "dot", "kron", "kronsum", "kron3r", "kron3l", "block", "add_bad", "dot_bad"]
-    eg.combos = [(o_, k_) for o_ in ops_u for k_ in ALLK]
+    eg.combos = [(o_, k_) for o_ in ops_u for k_ in ALLK] + [("flat_" + o_, None) for o_ in ("add", "dot", "kron", "kronsum") for _ in range(4)]
     rnd.shuffle(eg.combos)
     pc_i = 0   # position in the (combinator x root kind) sweep: 198 combinations, all visited in every run
     while len(cases) < n and tries < 30 * n:
